@@ -1,7 +1,7 @@
 (* C02 property theorems: statements only, each closed by [exact]. *)
 From Boltons Require Import Lib.Prelude Lib.C02_Syntax Spec.C02_Spec Model.C02_Model
   Model.C02_PtrModel Model.C02_PtrCache Proofs.C02_PtrLemmas Proofs.C02_PtrRep Proofs.C02_PtrSim Check.C02_Check
-  Model.C02_PtrInterp Gen.C02_Gen Proofs.C02_GenObl
+  Model.C02_PtrInterp Gen.C02_Gen Proofs.C02_GenObl Proofs.C02_SpecSane
   Proofs.C02_Lists Proofs.C02_Inv Proofs.C02_Heap Proofs.C02_Thms Proofs.C02_Counters Proofs.C02_Recency.
 Close Scope N_scope.
 Open Scope nat_scope.
@@ -309,3 +309,12 @@ Theorem C02_gen_remove : forall pr k v,
   = match p_remove pr k with Some pr' => Some (pr', DNone) | None => None end.
 Proof. exact gen_remove_ok. Qed.
 Print Assumptions C02_gen_remove.
+
+(* the reference itself is sane, independently of the models: along any list of
+   observations it accepts, every reference cache keeps distinct keys, at most
+   max_size items and soft <= miss -- so `holds` can never be satisfied by a
+   cache that exceeds its capacity *)
+Theorem C02_spec_sane : forall c init steps rh',
+  1 <= c_max c -> spec_final c [r_init c init] steps = Some rh' -> Forall (SInv c) rh'.
+Proof. exact spec_sane. Qed.
+Print Assumptions C02_spec_sane.
